@@ -322,6 +322,22 @@ def text_nearmiss_sessions(rng, tier):
             M["atoms"][k][key] = 2 if key == "rad" else (13 if M["atoms"][k]["sym"] != "H" else 2)
             N = {"atoms": [dict(a) for a in M["atoms"]], "bonds": list(M["bonds"])}
             N["atoms"][k][key] = 0
+        flat = i % 8 == 2
+        if flat:
+            # files written without coordinates: atoms of one element have identical atom lines, in one file and across the two;
+            # exactly one atom carries a label in the first file and none in the second
+            nat = rng.randint(2, 6)
+            el = rng.choice(["C", "N", "O"])
+            M = {"atoms": [dict(sym=el if rng.random() < 0.8 else "S", chg=0, rad=0, mass=0, x="0.0000", y="0.0000", z="0.0000") for _ in range(nat)],
+                 "bonds": [(j, j + 1, 1) for j in range(nat - 1)]}
+            N = {"atoms": [dict(a) for a in M["atoms"]], "bonds": list(M["bonds"])}
+            k = rng.randrange(nat)
+            M["atoms"][k][rng.choice(["mass", "rad"])] = 2
+        if i % 8 == 6 and M["bonds"]:
+            # the two files differ in one bond line, whatever its bond type (coordination and hydrogen bonds included)
+            j = rng.randrange(len(M["bonds"]))
+            M["bonds"][j] = (M["bonds"][j][0], M["bonds"][j][1], rng.choice([10, 10, 9, 8, 5, 4]))
+            N = {"atoms": [dict(a) for a in M["atoms"]], "bonds": [b for jj, b in enumerate(M["bonds"]) if jj != j]}
         S = Session(f"textnear-{i}")
         ids = []
         for X in (M, N):
@@ -337,8 +353,8 @@ def text_nearmiss_sessions(rng, tier):
                     else:
                         out_lines.append(l)
                 ids.append(S.read(out_lines, "V3000", "C07", floats=textgen.floats_of(X)))
-            elif (rng.random() < 0.4 or i % 4 == 0) and textgen.fits_v2000(X):
-                lines, _ = textgen.render_v2000(X, rng, opts={"group": rng.choice([1, 2, 8]), "order": rng.choice(["cri", "irc", "mixed"]), "mode": "lines" if i % 4 == 0 else rng.choice(["lines", "stale"])})
+            elif (rng.random() < 0.4 or i % 4 == 0 or flat) and textgen.fits_v2000(X):
+                lines, _ = textgen.render_v2000(X, rng, opts={"group": rng.choice([1, 2, 8]), "order": rng.choice(["cri", "irc", "mixed"]), "mode": "lines" if i % 4 == 0 or flat else rng.choice(["lines", "stale"])})
                 ids.append(S.read(lines, "V2000", "C08", floats=textgen.floats_of(X)))
             else:
                 lines, _ = textgen.render_v3000(X, rng, opts={"cont": rng.choice([0, 1, 2]), "extras": True, "star": False, "dt": False})
@@ -475,6 +491,119 @@ def stale_partition_sessions(rng, tier, n=25):
     return ss
 
 
+def library_refined_sessions(rng, tier, n=18, raw_ser=True):
+    """the graphs the library's own partitioning steps hand out (partition_molecule_by_attribute, refine_partitions: the same
+    molecule with partition values and whatever else those steps leave on the atoms) in the hands of a user: renumbered, a bond
+    moved, canonicalized again, serialized as they are; and canonical graphs renumbered by the user and serialized as they are"""
+    import tucan.canonicalization as tc
+    ss = []
+    part, refine = getattr(tc, "partition_molecule_by_attribute", None), getattr(tc, "refine_partitions", None)
+    fam = [g for name, g in gen.symmetric_families(rng) if g.number_of_nodes() <= 20]
+    for i in range(n if tier == "quick" else n * 8):
+        g = gen.random_molecule(rng, 8, density=rng.choice([0.25, 0.4])) if i % 3 else copy.deepcopy(rng.choice(fam))
+        nn = g.number_of_nodes()
+        if nn < 3:
+            continue
+        S = Session(f"librefined{i}")
+        o = S.input(g)
+        r = None
+        if part and refine:
+            try:
+                r = list(refine(part(S.objs[o], "invariant_code")))[-1] if i % 2 else part(S.objs[o], "invariant_code")
+            except Exception:
+                r = None
+        descs = [o]
+        if r is not None and "bad" not in record.project(r):
+            k = S.derive(o, r, list(range(nn)), kind="nonidentity")
+            if raw_ser:
+                S.ser(k, raw=True)
+            p = gen.random_perm(rng, nn)
+            descs += [k, S.derive(k, relabel(r, p, rng), p, kind="nonidentity")]
+            if i % 4 == 1 and r.number_of_edges() >= 1:
+                # one bond of the partitioned graph moved in place: a new molecule, described a second time from scratch
+                a, b = rng.choice(list(r.edges))
+                free = [(x, y) for x in r.nodes for y in r.nodes if x < y and not r.has_edge(x, y)]
+                if free:
+                    x, y = rng.choice(free)
+                    d = dict(r.edges[a, b])
+                    r.remove_edge(a, b); r.add_edge(x, y, **d)
+                    S.ev.append({"op": "mutate", "obj": k, "g": record.project(r), "newcls": 970000 + k})
+                    q = gen.random_perm(rng, nn)
+                    fresh = relabel(r, q, rng)
+                    for v in fresh.nodes:
+                        for key in [key for key in fresh.nodes[v] if key not in record_keys()]:
+                            del fresh.nodes[v][key]          # a description from scratch carries the reader's attributes only
+                        fresh.nodes[v]["partition"] = 0
+                    descs = [k, S.derive(k, fresh, q, kind="nonidentity")]
+        cs = []
+        for x in descs:
+            c = S.canon(x)
+            if c:
+                cs.append(c)
+                S.ser(c)
+        if cs and raw_ser:
+            # a canonical graph renumbered by the user keeps its partition values; serialized as it is
+            c = cs[0]
+            p = gen.random_perm(rng, nn)
+            S.ser(S.derive(c, relabel(S.objs[c], p, rng), p), raw=True)
+        ss.append(S)
+    return ss
+
+
+def record_keys():
+    return {"element_symbol", "atomic_number", "chg", "mass", "rad", "x_coord", "y_coord", "z_coord", "invariant_code", "partition", record.TAG}
+
+
+def rebuilt_sessions(rng, tier, n=25):
+    """molecules built with graph_from_molecule from attribute dictionaries taken over from another graph's atoms (derived entries
+    included) after the user changed an element, an isotope or a radical: the result is the molecule the dictionaries now state"""
+    from tucan.graph_utils import graph_from_molecule
+    ss = []
+    fam = [g for name, g in gen.symmetric_families(rng) if g.number_of_nodes() <= 16]
+    for i in range(n if tier == "quick" else n * 8):
+        g = copy.deepcopy(rng.choice(fam)) if i % 2 else gen.random_molecule(rng, 8, pool="organic", label_p=0.1)
+        nn = g.number_of_nodes()
+        if nn < 2:
+            continue
+        S = Session(f"rebuilt{i}")
+        o = S.input(g)
+        c0 = S.canon(o)
+        if c0:
+            S.ser(c0)
+        atoms = {a: copy.deepcopy(dict(d)) for a, d in S.objs[o].nodes(data=True)}
+        a = rng.choice(list(atoms))
+        what = rng.choice(["mass", "rad", "element"])
+        if what == "mass":
+            atoms[a]["mass"] = atoms[a].get("mass", 0) + rng.choice([1, 2, 13])
+        elif what == "rad":
+            atoms[a]["rad"] = atoms[a].get("rad", 0) % 3 + 1
+        else:
+            new = rng.choice([s for s in ["N", "O", "S", "Cl", "Si"] if s != atoms[a]["element_symbol"]])
+            atoms[a]["element_symbol"], atoms[a]["atomic_number"] = new, gen.Z[new]
+        bonds = {(x, y): dict(d) for x, y, d in S.objs[o].edges(data=True)}
+        try:
+            h = graph_from_molecule(atoms, bonds)
+        except Exception as ex:  # noqa
+            S.ev.append({"op": "raised", "call": "graph_from_molecule", "arg": o, "clause": "C04:graph_from_molecule-raised-" + type(ex).__name__})
+            ss.append(S)
+            continue
+        if "bad" in record.project(h):
+            continue
+        # h: a new molecule whose atoms still carry o's tags -> introduced as an input of its own, tags renewed
+        k = S.input(h)
+        descs = [k] + [S.derive(k, relabel(S.objs[k], p, rng), p) for p in [gen.random_perm(rng, nn) for _ in range(2)]]
+        # ... and the same molecule written down from scratch
+        scratch = gen.mol([(d["element_symbol"], d.get("mass", 0), d.get("rad", 0), d.get("chg", 0)) for _, d in sorted(h.nodes(data=True))],
+                          [(x, y, d.get("bond_type", 1)) for x, y, d in h.edges(data=True)])
+        descs.append(S.derive(k, record.tag_graph(scratch), list(range(nn)), kind="nonidentity"))
+        for x in descs:
+            c = S.canon(x)
+            if c:
+                S.ser(c)
+        ss.append(S)
+    return ss
+
+
 @check("C04")
 def c04(out, tier, rng):
     design_pipeline(out, tier)
@@ -483,6 +612,8 @@ def c04(out, tier, rng):
     ss = enumerated_sessions(out, tier, rng, parse_back=False)
     ss += pool_sessions(rng, tier, k=3, feedback=True, parse_back=False, nonidentity=True)
     ss += stale_partition_sessions(rng, tier)
+    ss += library_refined_sessions(rng, tier, raw_ser=False)
+    ss += rebuilt_sessions(rng, tier)
     S = Session("solvent-box")
     o = S.input(gen.solvent_box(rng))
     for x in [o] + [S.derive(o, reorder_nodes(relabel(S.objs[o], p, rng), rng), p) for p in [gen.random_perm(rng, S.objs[o].number_of_nodes()) for _ in range(2 if tier == "quick" else 6)]]:
